@@ -235,8 +235,35 @@ func TestC02(t *testing.T) {
 			for i := 0; i < maxPoints/3 && i < len(ik); i++ {
 				pts = append(pts, keep[ik[i]])
 			}
-			for i := 0; len(pts) < maxPoints && i < len(ir); i++ {
-				pts = append(pts, rest[ir[i]])
+			// the rest: stratified by mode x before/after x statement text (asset columns folded), classes
+			// in drawn order, so that every distinct statement of the block pipeline is interrupted
+			// somewhere — not only the statements that are issued most often
+			byClass := map[string][]crashPoint{}
+			var classes []string
+			for _, i := range ir {
+				p := rest[i]
+				sql := balanceCol.ReplaceAllString(p.Desc, "T_balance")
+				if len(sql) > 60 {
+					sql = sql[:60]
+				}
+				k := fmt.Sprintf("%s/%v/%s", p.Mode, p.After, sql)
+				if _, ok := byClass[k]; !ok {
+					classes = append(classes, k)
+				}
+				byClass[k] = append(byClass[k], p)
+			}
+			for len(pts) < maxPoints {
+				progressed := false
+				for _, k := range classes {
+					if l := byClass[k]; len(l) > 0 && len(pts) < maxPoints {
+						pts = append(pts, l[0])
+						byClass[k] = l[1:]
+						progressed = true
+					}
+				}
+				if !progressed {
+					break
+				}
 			}
 		} else {
 			st.Add("chains_enumerated_exhaustively", 1)
